@@ -786,3 +786,73 @@ Lemma now_example :
 Proof.
   split; [reflexivity|]. split; [reflexivity|]. split; [reflexivity|]. eexists. split; reflexivity.
 Qed.
+
+(* ------------------------------------------------------------------ *)
+(* the '#' rule is about characters, not tags: wherever the surplus '#' *)
+(* stands (same tag, another tag, another group, next to a reference)   *)
+Lemma count_two_hash pre mid post : count ch_hash (pre ++ ch_hash :: mid ++ ch_hash :: post) <> 1.
+Proof.
+  rewrite count_app. cbn [count]. rewrite N.eqb_refl, count_app. cbn [count]. rewrite N.eqb_refl. lia.
+Qed.
+
+Lemma count_some_hash pre post : count ch_hash (pre ++ ch_hash :: post) <> 0.
+Proof. rewrite count_app. cbn [count]. rewrite N.eqb_refl. lia. Qed.
+
+Lemma count_no_hash s : has_hash s = false -> count ch_hash s <> 1.
+Proof.
+  intros H. rewrite count_hash_has in H. apply negb_false_iff in H. apply Nat.eqb_eq in H. lia.
+Qed.
+
+Section N2.
+Variable V_defs : list str -> list issue.
+Variable V_basic : list str -> str -> list issue.
+Variable V_defcount : str -> nat.
+Variable V_hashes : list str -> str -> nat.
+Variable V_full : list str -> str -> list str -> list str -> list issue.
+Notation VS j := (validate_sidecar true V_defs V_basic V_defcount V_hashes V_full j).
+
+Lemma now_fault_value_hash_anywhere sc name kvs pre mid post :
+  let s := pre ++ ch_hash :: mid ++ ch_hash :: post in
+  In (name, JObj kvs) sc -> lookup s_HED kvs = Some (JStr s) ->
+  V_defcount s = 0 -> (forall ds, V_hashes ds s = count ch_hash s) ->
+  exists out, VS (JObj sc) = Ok out /\
+              (In c_PLACEHOLDER_INVALID (error_codes out) \/ early_exit true sc out).
+Proof.
+  intros s Hin El Hc Hh.
+  apply (now_fault_value_hash V_defs V_basic V_defcount V_hashes V_full sc name kvs s Hin El Hc Hh).
+  apply count_two_hash.
+Qed.
+
+Lemma now_fault_value_hash_none sc name kvs s :
+  In (name, JObj kvs) sc -> lookup s_HED kvs = Some (JStr s) -> has_hash s = false ->
+  V_defcount s = 0 -> (forall ds, V_hashes ds s = count ch_hash s) ->
+  exists out, VS (JObj sc) = Ok out /\
+              (In c_PLACEHOLDER_INVALID (error_codes out) \/ early_exit true sc out).
+Proof.
+  intros Hin El Hn Hc Hh.
+  apply (now_fault_value_hash V_defs V_basic V_defcount V_hashes V_full sc name kvs s Hin El Hc Hh).
+  apply count_no_hash. exact Hn.
+Qed.
+
+Lemma now_fault_category_hash_anywhere sc name kvs hv key pre post :
+  let s := pre ++ ch_hash :: post in
+  In (name, JObj kvs) sc -> lookup s_HED kvs = Some (JObj hv) -> In (key, JStr s) hv ->
+  V_defcount s = 0 -> (forall ds, V_hashes ds s = count ch_hash s) ->
+  exists out, VS (JObj sc) = Ok out /\
+              (In c_PLACEHOLDER_INVALID (error_codes out) \/ early_exit true sc out).
+Proof.
+  intros s Hin El Hkv Hc Hh.
+  apply (now_fault_category_hash V_defs V_basic V_defcount V_hashes V_full sc name kvs hv key s Hin El Hkv Hc Hh).
+  apply count_some_hash.
+Qed.
+
+End N2.
+
+(* {"c": {"HED": "Label/##"}}: both '#' in one tag *)
+Definition sc_hash_same_tag : list (str * json) :=
+  [([99]%N, JObj [(s_HED, JStr [76;97;98;101;108;47;35;35]%N)])].
+
+Lemma same_tag_example :
+  exists out, validate_sidecar true V0_defs V0_basic V0_defcount V0_hashes V0_full (JObj sc_hash_same_tag) = Ok out /\
+              error_codes out = [c_PLACEHOLDER_INVALID].
+Proof. eexists. split; reflexivity. Qed.
